@@ -407,7 +407,11 @@ func Run(c *vk.Ctx) {
 		c.Vacuous("A: no profile with an unrepresentable label was generated in this shard")
 	}
 
+	// ---------------- E: edits after a codec pass (stale encoder state) ---
+	k.edits(mine, expired)
+
 	// ---------------- B: cross-reference product -------------------------
+	k.fam = "xref"
 	k.xref(mine, expired)
 
 	// ---------------- C: non-canonical wire documents --------------------
